@@ -15,23 +15,28 @@ def showWDays : Option (List WDay) → String
   | none => "-"
   | some l => "[" ++ ",".intercalate (l.map (fun w => s!"{w.1}/{showOptInt w.2}")) ++ "]"
 
+def showDate (txt : List Char) : String :=
+  match parseCompact txt with
+  | .compact y m d hh mm ss z => s!"c:{y},{m},{d},{hh},{mm},{ss},{showBool z}"
+  | .other _ => "o"
+
 def showArgs (a : RArgs) : String :=
   " ".intercalate [showOptInt a.freq, showOptInt a.interval, showOptInt a.count, showOptInt a.wkst,
-    (match a.untilV with | none => "-" | some u => "s" ++ hexL u),
+    (match a.untilV with | none => "-" | some u => showDate u),
     showOptList a.bysetpos, showOptList a.bymonth, showOptList a.bymonthday, showOptList a.byyearday,
     showOptList a.byeaster, showOptList a.byweekno, showWDays a.byweekday, showOptList a.byhour,
     showOptList a.byminute, showOptList a.bysecond]
 
 def showDtstart : Option (List Char × List (List Char)) → String
   | none => "-"
-  | some (v, parms) => "s" ++ hexL v ++ "/" ++ Py.showList hexL parms
+  | some (v, parms) => showDate v ++ (if parms.any (fun p => startsWith p (lit "TZID=")) then "+tzid" else "")
 
 def showParsed : Parsed → String
   | .rule a dt => "rule " ++ showDtstart dt ++ " {" ++ showArgs a ++ "}"
   | .set rr ex rd exd dt rdd =>
       "set " ++ showDtstart dt ++ " " ++ showBool rdd ++ " rr=" ++ "|".intercalate (rr.map (fun a => "{" ++ showArgs a ++ "}")) ++
       " ex=" ++ "|".intercalate (ex.map (fun a => "{" ++ showArgs a ++ "}")) ++
-      " rd=" ++ Py.showList hexL rd ++ " exd=" ++ Py.showList (fun p => hexL p.1) exd
+      " rd=" ++ Py.showList showDate rd ++ " exd=" ++ Py.showList (fun p => showDate p.1) exd
 
 def parseWDays? (s : String) : Option (Option (List WDay)) :=
   if s == "-" then some none else
